@@ -311,6 +311,15 @@ func gwFraming(rec *frec, g gwObj, r *rand.Rand, nRandom int, resolution int, op
 	emit(lo, false)
 	emit(hi, false)
 	emit(hi+1+r.Intn(hi/4+1), false)
+	// every other distance from the observed limit the model walks (EDGE records of FrameSizes.tla)
+	for _, d := range edgeSlacks {
+		switch {
+		case d > 0 && lo-d >= 1 && (!g.weight || lo-d >= 1000):
+			emit(lo-d, false)
+		case d < -1:
+			emit(hi-d-1, false)
+		}
+	}
 	if g.weight && g.fromTxn != nil {
 		// the same weight limit, now with what the weight does not count: stressInputs minimal inputs whose
 		// elements sit evenly spread in a tree of 2^stressDepth leaves and carry their Merkle proofs
@@ -401,7 +410,16 @@ func gwHeaderFraming(rec *frec, r *rand.Rand) {
 			hi = mid
 		}
 	}
-	for _, n := range []int{6, 10 + r.Intn(30), lo, hi, hi + 1 + r.Intn(50), 1000} {
+	ns := []int{6, 10 + r.Intn(30), lo, hi, hi + 1 + r.Intn(50), 1000}
+	for _, d := range edgeSlacks {
+		switch {
+		case d > 0 && lo-d >= 6:
+			ns = append(ns, lo-d)
+		case d < -1:
+			ns = append(ns, hi-d-1)
+		}
+	}
+	for _, n := range ns {
 		n := n
 		rec.add(func() fline { return gwHeaderLine(n, 48+lo, 48+hi) })
 	}
